@@ -45,9 +45,26 @@ func mk(b []byte, c gcase) []byte {
 	return gen.WithCap(b, c.spare, canary)
 }
 
+var (
+	reusedKey = make([]byte, 16)
+	reusedIV  = make([]byte, 12)
+	runNo     int
+)
+
 func run(t interface{ Fatalf(string, ...any) }, c gcase) (ct, tag []byte) {
 	desc := fmt.Sprintf("key=%x iv=%x(%d) aad=%d bytes pt=%d bytes", c.key, c.iv, len(c.iv), len(c.aad), len(c.pt))
 	key, iv, aad, pt := mk(c.key, c), mk(c.iv, c), mk(c.aad, c), mk(c.pt, c)
+	// every other case passes the key (and a 12-byte IV) in ONE buffer rewritten in place from case to case: a helper
+	// that remembers the slice instead of its contents (a key-schedule or H cache) then works with stale material
+	runNo++
+	if runNo%2 == 0 {
+		copy(reusedKey, c.key)
+		key = reusedKey
+		if len(c.iv) == 12 {
+			copy(reusedIV, c.iv)
+			iv = reusedIV
+		}
+	}
 	var err error
 	if p := hx.Try(func() { ct, tag, err = sm4.Sm4GCM(key, iv, pt, aad, true) }); p != nil {
 		t.Fatalf("%s: Sm4GCM encrypt panicked: %v\n%s", desc, p.Val, p.Stack)
